@@ -10,13 +10,13 @@ from contracts.lib import *  # noqa
 LEVEL = "other"
 MANIFEST_ENTRY = {
     "text": "Server selection decision: the statements of Tahoe2ServerSelector.get_shareholders after its query loop (extracted mechanically from the real AST on every run) are verified as a Hoare triple from ANY state the loop may leave: the method returns (use_trackers, preexisting shares) only if servers_of_happiness(merge_servers(preexisting, use_trackers)) >= min_happiness, otherwise _failed() runs; _failed aborts every tracker in use_trackers and raises UploadUnhappinessError; ServerTracker.abort aborts every allocated bucket writer and forgets it. CHKUploader.locate_all_shareholders hands (total, needed, happy) of the encoder to the selector in the right parameters. During the push: every landlord operation of the Encoder (put_header, put_block, put_crypttext_hashes, put_block_hashes, put_share_hashes, put_uri_extension, close) has an errback that calls _remove_shareholder with THAT landlord's share id, and _remove_shareholder aborts and forgets the landlord, recomputes servers_of_happiness over the remaining servermap and raises UploadUnhappinessError exactly when it is below min_happiness. A share becomes visible only when complete: WriteBucketProxy.close sends `close` to the server only after the last queued write succeeded, and passes a write failure on instead. The reported share map (CHKUploader._encrypted_done) lists exactly the shares the encoder reports as placed, each on its tracker's server. The happiness value itself is the real servers_of_happiness, whose bounded run-time contract (C08: equals a maximum matching on every relation up to 4x4) is re-run as part of this check.",
-    "note": "servers_of_happiness / merge_servers are callee contracts (C07/C08); Deferred scheduling is modelled by a chain interpreter (callbacks on success, errbacks on failure). The query loop itself (which servers are asked, time-outs, read-only servers) and the storage-server side of abort (C22: aborted buckets leave no visible share) are outside these contracts. Bounded: 1..3 landlords/trackers.",
+    "note": "servers_of_happiness is a callee contract (C08, bounded) and merge_servers one that is discharged here on the real body for every small servermap/tracker shape (MergeServers: result = preexisting + tracker buckets, caller's map untouched); Deferred scheduling is modelled by a chain interpreter (callbacks on success, errbacks on failure). The query loop itself (which servers are asked, time-outs, read-only servers) and the storage-server side of abort (C22: aborted buckets leave no visible share) are outside these contracts. Bounded: 1..3 landlords/trackers.",
     "technique": "contract-based deductive verification (pyvc VCs + z3) with callee contracts, a Deferred-chain model and a mechanically extracted code segment; landlord counts bounded",
 }
 MANIFEST_ENTRY["text"] += ' Bounded end-to-end stand-in (run-time contract, never counted as proved): contracts/grid_upload.py runs the real Uploader, server selector, Encoder, checker/verifier and repairer against real StorageServers on disk (contracts/real_grid.py) with read-only, full and failing servers and pre-existing shares, and compares results with ground truth read from the disks and with a reference encoding.'
 MANIFEST_ENTRY["technique"] += "; plus bounded end-to-end run-time scenario contracts on an in-process grid of the real components (stand-in, labelled bounded)"
 EXPLANATION = "Decision and error-path contracts of the real upload code."
-TRUSTED = ["servers_of_happiness/merge_servers (C07, C08)", "twisted Deferred callback/errback semantics as implemented by contracts.lib.fire_chain"]
+TRUSTED = ["servers_of_happiness as a callee contract (its bounded run-time contract C08 is re-run by this check); merge_servers is under contract here (MergeServers, bounded shapes)", "twisted Deferred callback/errback semantics as implemented by contracts.lib.fire_chain"]
 ASSUMPTIONS = []
 NOT_DECIDED = "the query loop of get_shareholders; Encoder segment scheduling; storage-side effects of abort (C22)."
 UP = "allmydata/immutable/upload.py"
@@ -565,5 +565,59 @@ def extra_checks(rep, tier):
         v["property"] = "C06"
 
 
+class MergeServers(Spec):
+    """happinessutil.merge_servers(servermap, upload_trackers): the callee contract the selector and encoder contracts above
+    rely on ("the happiness is computed over preexisting shares PLUS the shares of the trackers in use"): the result maps every
+    share number to exactly servermap's servers for it plus the server of every tracker holding a bucket for it, nothing
+    else; the caller's servermap (and its sets) is left untouched."""
+    file = "allmydata/util/happinessutil.py"
+    qualname = "merge_servers"
+    level = "B"
+    bound = "servermaps over share numbers {0,1,2} and servers {A,B,C} with <= 2 entries of <= 2 servers; 0..2 trackers (or None) each with 0..2 buckets: every combination"
+    cross_check = 0
+    canary_case = {"sm": ((0, ("A",)),), "tr": (("B", (0, 1)),)}
+
+    def inputs(self):
+        return {"sm": ChoiceK([()]), "tr": ChoiceK([()])}
+
+    def all_cases(self):
+        import itertools
+        srvsets = [("A",), ("B",), ("A", "B"), ("C",)]
+        sms = [()] + [((sh, ss),) for sh in (0, 1) for ss in srvsets] + [((0, s1), (1, s2)) for s1 in srvsets for s2 in srvsets[:3]]
+        bks = [(), (0,), (1,), (0, 1), (2,), (1, 2)]
+        one = [(sv, b) for sv in ("A", "B", "C") for b in bks]
+        trs = [None, ()] + [(t,) for t in one] + [(t1, t2) for t1 in one[:9] for t2 in one[3:] if t1[0] != t2[0]]
+        return [{"sm": sm, "tr": tr} for sm in sms for tr in trs]
+
+    def build(self, a):
+        sm = {sh: set(s.encode() for s in ss) for sh, ss in a["sm"]}
+        if a["tr"] is None:
+            return sm, None
+        return sm, set(stub("tracker-" + sv, buckets={sh: "bucket-writer" for sh in b}, get_serverid=(lambda v: lambda I, a_, k: v)(sv.encode())) for sv, b in a["tr"])
+
+    def run(self, I, a):
+        sm, tr = self.build(a)
+        before = {k: set(v) for k, v in sm.items()}
+        out = Outcome("return", I.call_value(self.target(I), [sm, tr], {}))
+        out.post = {"arg_after": sm, "arg_before": before}
+        return out
+
+    def ensures(self, I, a, out):
+        want = {sh: set(s.encode() for s in ss) for sh, ss in a["sm"]}
+        for sv, b in (a["tr"] or ()):
+            for sh in b:
+                want.setdefault(sh, set()).add(sv.encode())
+        got = out.value
+        ok = isinstance(got, dict) and {k: set(v) for k, v in got.items()} == want
+        untouched = out.post["arg_after"] == out.post["arg_before"]
+        fresh = (got is not out.post["arg_after"]) and all(got[k] is not out.post["arg_after"].get(k) for k in got) if isinstance(got, dict) else False
+        return [("result-is-preexisting-shares-plus-the-buckets-of-the-trackers-in-use", z3.BoolVal(ok)),
+                ("callers-servermap-is-not-modified", z3.BoolVal(untouched)),
+                ("result-shares-no-set-with-the-callers-servermap", z3.BoolVal(fresh))]
+
+    def canary(self, I, a, out):
+        return [("canary", z3.BoolVal(out.value == out.post["arg_before"]))]
+
+
 def contracts(tier):
-    return [SelectorDecision(), SelectorFailed(), LocateAllShareholders(), EncoderErrorWiring(), RemoveShareholder(), EncryptedDone(), BucketClose(), AllocationFor(), PlacementsKeepAllocated()]
+    return [SelectorDecision(), SelectorFailed(), LocateAllShareholders(), EncoderErrorWiring(), RemoveShareholder(), EncryptedDone(), BucketClose(), AllocationFor(), PlacementsKeepAllocated(), MergeServers()]
